@@ -15,6 +15,9 @@ func (s *Sim) runOracles(op Op, evs []SIEvent, preds []PredCall) {
 	s.shim.mu.Lock()
 	defer s.shim.mu.Unlock()
 	s.cache = nil
+	if len(evs) > 0 {
+		s.probes["protocol_events"] += len(evs)
+	}
 	s.oracleC03(op)
 	s.oracleC01(op, evs, preds)
 	s.oracleC09(op, evs)
@@ -398,6 +401,13 @@ func (s *Sim) checkBinding(prop, key, node string, m *MAlloc, preds []PredCall, 
 		}
 	}
 	free := mn.Cap.Sub(s.shim.nodeForeign(node)).Sub(usage)
+	s.probe("binding_checked")
+	for t, v := range m.Res {
+		if v > 0 && free[t] == v {
+			s.probe("node_full")
+			break
+		}
+	}
 	if !m.Res.FitsIn(free) {
 		s.violate(prop, "overcommit", "", "scheduler bound %s %s to node %s with only %s free (cap %s foreign %s allocated %s)", key, m.Res, node, free, mn.Cap, s.shim.nodeForeign(node), usage)
 	}
@@ -577,6 +587,20 @@ func (s *Sim) oracleC10(op Op, evs []SIEvent) {
 		}
 		if a.State == "Running" && len(a.Allocs) == 0 && pending == 0 {
 			s.violate("C10", "idle-not-completing", "", "application %s is Running with no allocations and no outstanding asks (should be Completing)", id)
+		}
+	}
+	for _, e := range evs {
+		if e.Kind == "appUpdated" {
+			switch e.Type {
+			case "Completed":
+				s.probe("app_completed")
+			case "Completing":
+				s.probe("app_completing")
+			case "Failing", "Failed":
+				s.probe("app_failed")
+			case "Resuming":
+				s.probe("app_resuming")
+			}
 		}
 	}
 	for _, id := range sortedKeys(p.Done) {
